@@ -234,6 +234,45 @@ func runC20(p *core.Prog, r *core.Report, tier string) {
 				}
 			}
 		}
+		// a pruning loop bounds the map only if it removes the OLD entries: where the delete is decided by an order
+		// comparison between the entry being visited and something else, the entry is on the smaller side
+		for k, pr := range pruners {
+			db := pr.del.Block()
+			if len(db.Preds) != 1 {
+				continue
+			}
+			pb := db.Preds[0]
+			iff, ok := pb.Instrs[len(pb.Instrs)-1].(*ssa.If)
+			if !ok {
+				continue
+			}
+			edge := 0
+			if pb.Succs[1] == db {
+				edge = 1
+			}
+			c := core.DecodeCond(ds, iff)
+			rel := c.RelOnEdge(edge)
+			if rel != "<" && rel != "<=" && rel != ">" && rel != ">=" {
+				continue
+			}
+			ofEntry := func(d *core.VD) bool {
+				return d.Any(func(x *core.VD) bool {
+					ex, ok := x.Val.(*ssa.Extract)
+					if !ok {
+						return false
+					}
+					nx, ok := ex.Tuple.(*ssa.Next)
+					return ok && nx.Iter == ssa.Value(pr.rng.(*ssa.Range)) && (ex.Index == 1 || ex.Index == 2)
+				})
+			}
+			ex, ey := ofEntry(c.X), ofEntry(c.Y)
+			if ex == ey {
+				continue
+			}
+			entrySmaller := (ex && (rel == "<" || rel == "<=")) || (ey && (rel == ">" || rel == ">="))
+			r.Check(entrySmaller, "C20.1", fmt.Sprintf("bounded-map|%s|pruner-removes-old-entries#%d", key, k+1), p.Pos(core.IfPos(iff)), "the pruning loop removes entries that lie before the reference point",
+				"the pruning loop removes the entries that lie AFTER the reference point ("+c.X.String()+" "+rel+" "+c.Y.String()+"): the old entries are never removed and the map grows for the life of the process")
+		}
 		for _, pr := range pruners {
 			// E1: pruning loop passed on every path through an insert in the same function, or the pruner is called on every such path
 			for i, ins := range in.inserts {
